@@ -144,7 +144,9 @@ def deep_merge_multi_update(dct, merge_dct):
                     '_multi_update': [
                         dct[k], merge_dct[k]]}
         else:
-            dct[k] = merge_dct[k]
+            # a copy of the dictionaries: later merges write into dct[k],
+            # and merge_dct belongs to whoever issued the update
+            dct[k] = deep_copy_internal(merge_dct[k])
     return dct
 
 
